@@ -899,3 +899,5 @@ Proof.
   - intros i L. unfold nolock_pool, pool_of. apply nth_overflow. simpl. assumption.
   - unfold nolock_pool. apply private_ok_none. intros t [E|[E|[]]]; subst t; vm_compute; reflexivity.
 Qed.
+
+Lemma ob_no_shared_pointee_writes_true : ob_no_shared_pointee_writes = true. Proof. vm_compute. reflexivity. Qed.
